@@ -264,6 +264,21 @@ class K3(K0):
 INFERRED_TYPES = {"K0": K0, "K1": K1, "K2": K2, "K3": K3}
 
 
+class SizedDomain:
+    """A sized, re-iterable user collection (has __len__ and __iter__) whose iteration is observed."""
+
+    def __init__(self, domain_id, items):
+        self.domain_id = domain_id
+        self.items = items
+
+    def __len__(self):
+        MON.emit("len", self.domain_id)
+        return len(self.items)
+
+    def __iter__(self):
+        return stream(self.domain_id, self.items)
+
+
 def stream(domain_id, items):
     """A one-shot domain stream that logs every pull with its position."""
     index = 0
